@@ -182,6 +182,14 @@ class WireObserver:
                     res = self.try_open(x, tries, pkt, info, space)
                     if res is not None and res[0] is ring.app[ring.gen + 1]:
                         ring.gen += 1
+                    elif res is None:
+                        # two generations ahead of the last packet seen from x: the peer updated the keys (x followed without having sent anything
+                        # yet) and x then initiated an update of its own
+                        while len(ring.app) <= ring.gen + 2:
+                            ring.app.append(R.update_keys(ring.app[-1]))
+                        res = self.try_open(x, [ring.app[ring.gen + 2]], pkt, info, space)
+                        if res is not None:
+                            ring.gen += 2
                 if res is not None:
                     key_phase = (res[1][0] >> 2) & 1
                     key_gen = next(i for i, k in enumerate(ring.app) if k is res[0])
